@@ -118,6 +118,12 @@ Theorem thread_exception_is_as_modelled :
   gen_te_capture_locked = true /\ gen_te_capture_stores = true /\ gen_te_run_catches_all = true /\ gen_te_rethrow_rethrows = true.
 Proof. repeat split; reflexivity. Qed.
 
+(* statements inside omp critical are wrapped in a nested e.Run: an exception never leaves the critical construct
+   (leaving it is non-conforming OpenMP: the runtime terminates the program instead of letting it reach Rethrow) *)
+Theorem critical_sections_capture_exceptions :
+  gen_critical_capture = true /\ Gen.GenParLoops_clang.gen_critical_capture = true /\ Gen.GenParLoops_apple.gen_critical_capture = true.
+Proof. repeat split; reflexivity. Qed.
+
 (* ++pb inside BlocksBase::D is harmless only because the compiled ProgressBar is the empty one *)
 Theorem progressbar_is_empty : gen_progressbar_empty = true.
 Proof. reflexivity. Qed.
